@@ -642,3 +642,17 @@ func ownedBy(p *packages.Package, fd *ast.FuncDecl, owner string) bool {
 	}
 	return false
 }
+
+// familyOf returns fd followed by the unexported functions of the package that are private helpers
+// of fd (referenced from exactly one function, transitively, up to fd): where a rule looks for a
+// statement "in fd", a tidy-up may have moved that statement into one of them.
+func familyOf(p *packages.Package, fd *ast.FuncDecl) []*ast.FuncDecl {
+	out := []*ast.FuncDecl{fd}
+	key := funcKey(p, fd)
+	for _, g := range pkgFuncDecls(p) {
+		if g != fd && ownedBy(p, g, key) {
+			out = append(out, g)
+		}
+	}
+	return out
+}
